@@ -1,7 +1,7 @@
 """C08 - writing a time point out and reading it back is lossless.
 
 States: valid non-truncated points (deviation-bounded pool + every offset + six-digit fraction
-boundaries + derived operands). Transitions: str, parse(str(p)), str again; dump(p, fmt) and parse
+boundaries + derived operands). Transitions: str, parse(impl.sstr(p)), str again; dump(p, fmt) and parse
 for every complete custom format. Oracle: round-trip identities.
 """
 from fractions import Fraction
@@ -83,9 +83,9 @@ def check_roundtrip(ctx, kind, pdesc, p=None, via=None):
         return
     ctx.transitions += 3
     try:
-        text = str(p)
+        text = impl.sstr(p)
         q = parser_for(ned).parse(text)
-        text2 = str(q)
+        text2 = impl.sstr(q)
     except Exception as ex:
         ctx.violation("total", dict(sig, exc=type(ex).__name__), case, "str and parse work",
                       "raised %s: %s" % (type(ex).__name__, ex))
